@@ -102,6 +102,7 @@ def run(F, chk):
                     ra.violation(key, rdy.where(hits[0][0]), "%s::%s is answered with %s instead of %d" % (adt.split("::")[-1], var, sorted(codes), want))
     answer_replaces_partial_response(F, chk)
     keepalive_rule(F, chk)
+    goaway_boundary_rule(F, chk)
     # ---------------- R-C02-b / c (path engine on Mux::timeout) -----------------------
     rb = chk.rule("R-C02-b", "T3(path engine)", "answers produced by Mux::timeout are followed by a frontend write pass", floor=1)
     rc = chk.rule("R-C02-c", "T3(path engine)", "a fired timer is re-armed on every path that keeps the session", floor=1)
@@ -245,12 +246,12 @@ def first_answer(b, start, site, weight):
     return site in b.reach_from([start], removed=others)
 
 
-def keepalive_rule(F, chk):
+def keepalive_rule(F, chk, rid="R-C02-f"):
     """R-C02-f: an HTTP/1 backend connection is parked for reuse (BackendStatus::KeepAlive) only when the response on
     it is over: every construction of BackendStatus::KeepAlive lies on the true edge of Kawa::is_terminated() of a
     `back` kawa.  `drained so far` (is_completed) is not `ended`: a stream reset in the middle of a response would leave
     the rest of that response on the socket, to be parsed as the answer to the next request that reuses it."""
-    r = chk.rule("R-C02-f", "T5", "a backend connection is kept for reuse only after its response terminated", floor=1)
+    r = chk.rule(rid, "T5", "a backend connection is kept for reuse only after its response terminated", floor=1)
     n = 0
     for b in F.grep('"var":"KeepAlive"'):
         if b.derived or not (b.path.startswith(MUX) or b.path.startswith("<" + MUX)):
@@ -274,3 +275,45 @@ def keepalive_rule(F, chk):
             else:
                 r.violation(key, fb.where(bi, si), "the backend connection is marked KeepAlive without the response on it being terminated: after a mid-response reset the leftover bytes are read as the next request's answer")
     r.require(n >= 1, "no construction of BackendStatus::KeepAlive found in the mux")
+
+
+def goaway_boundary_rule(F, chk):
+    """R-C02-g: GOAWAY(last_stream_id = N) says streams <= N were or will be processed by the peer.  Only streams with an id
+    STRICTLY greater than N may be taken off the connection to be retried / refused; taking N itself drops the response
+    the peer is still going to send for it (the client gets no answer)."""
+    r = chk.rule("R-C02-g", "T5", "on GOAWAY only streams above last_stream_id are retried", floor=1)
+    cands = [p for p in F.paths() if p.startswith(MUX + "h2::ConnectionH2") and p.endswith("::handle_goaway_frame")]
+    if not r.require(cands, "ConnectionH2::handle_goaway_frame not found"):
+        return
+    b = lib.flat(F, F.body(cands[0]))
+    r.fn(b.path)
+    strict, loose = [], []
+    for sb, f, t, atom in guards.bool_switches(b):
+        if atom[0] != "cmp":
+            continue
+        for tgt in (f, t):
+            rel = lib.relation_on_edge(b, sb, tgt)
+            if not rel:
+                continue
+            op, sa, sbb, at = rel
+            a_last = lib.is_field_value(b, at[2], "last_stream_id")
+            b_last = lib.is_field_value(b, at[3], "last_stream_id")
+            if a_last == b_last:
+                continue
+            if a_last:
+                op = {"Lt": "Gt", "Gt": "Lt", "Le": "Ge", "Ge": "Le"}.get(op, op)
+            if op == "Gt":
+                strict.append((sb, tgt))
+            elif op == "Ge":
+                loose.append((sb, tgt))
+    pushes = [bi for bi, t in b.calls() if callee_of(t).endswith(("Vec::<T, A>::push", "::push_back", "::insert")) and
+              (strict or loose) and any(lib.guarded_by(b, bi, [e]) for e in strict + loose)]
+    key = "%s|retry set = ids > last_stream_id" % b.path
+    if not r.require(strict or loose, "handle_goaway_frame: no comparison with goaway.last_stream_id found"):
+        return
+    if loose and not strict:
+        r.violation(key, b.where(loose[0][0]), "streams are selected for retry with `id >= last_stream_id`: the stream the peer named as the last one it processes is taken off the connection and its response is dropped")
+    elif loose:
+        r.violation(key, b.where(loose[0][0]), "a comparison `id >= last_stream_id` selects streams on GOAWAY")
+    else:
+        r.ok(key, b.where(strict[0][0]), "streams are selected with `id > last_stream_id` (%d site(s))" % len(strict))
